@@ -633,6 +633,17 @@ fn write_sig(op: &str, anat: &str) -> String {
     }
 }
 
+/// Identifier shortened for messages.
+fn short(id: &str) -> String {
+    if id.chars().count() <= 160 {
+        format!("{id:?}")
+    } else {
+        let head: String = id.chars().take(70).collect();
+        let tail: String = id.chars().rev().take(70).collect::<Vec<_>>().into_iter().rev().collect();
+        format!("\"{head}\" … ({} chars) … \"{tail}\"", id.chars().count())
+    }
+}
+
 fn has_out_marker(b: &[u8]) -> bool {
     vh::sdk::find_sub(b, OUT_MARK.as_bytes()).is_some()
 }
@@ -903,6 +914,13 @@ fn judge_live(run: &Run, c: &Case, live: &Live) -> CaseResult {
     };
     let oc = outcome.split(':').next().unwrap_or("");
     run.count(&format!("outcome:{op}:{oc}"));
+    if std::env::var("VERIF_DEBUG").is_ok() {
+        eprintln!("DEBUG {op}({}) aux={} -> {outcome}", short(&id), c.aux);
+    }
+    if oc != "ok" && (op.starts_with("builder") || op == "zip_import") {
+        let kind: String = outcome.chars().take(48).collect();
+        run.count(&format!("errkind:{op}:{kind}"));
+    }
 
     if selftest() == 2 && op == "add" && anat == "plain" && oc == "ok" {
         // deliberately wrong "SDK": simulate an escaped write
@@ -925,7 +943,7 @@ fn judge_live(run: &Run, c: &Case, live: &Live) -> CaseResult {
         };
         return Err(Fail::new(
             sig,
-            format!("{op}({id:?}) [{outcome}] with base {} changed the file system outside the root: {}", c.base, diff.join("; ")),
+            format!("{op}({}) [{outcome}] with base {} changed the file system outside the root: {}", short(&id), c.base, diff.join("; ")),
         ));
     }
     if oc == "ok" && matches!(op, "add" | "builder_add_resource") {
@@ -941,7 +959,7 @@ fn judge_live(run: &Run, c: &Case, live: &Live) -> CaseResult {
         if has_out_marker(b) {
             return Err(Fail::new(
                 format!("C29:{op}-returns-outside-content"),
-                format!("{op}({id:?}) with base {} returned/embedded the content of an outside sentinel file (real location {loc:?})", c.base),
+                format!("{op}({}) with base {} returned/embedded the content of an outside sentinel file (real location {loc:?})", short(&id), c.base),
             ));
         }
         if vh::sdk::find_sub(b, IN_MARK.as_bytes()).is_some() {
@@ -957,10 +975,12 @@ fn judge_live(run: &Run, c: &Case, live: &Live) -> CaseResult {
     if positive == Some(true) {
         run.count(&format!("positive:{op}"));
         // Only meaningful when the identifier is resolved against the base path at all.
-        let target_loc = match (&returned_path, &loc) {
-            (Some(p), _) => real_location(p),
-            (None, l) => l.clone(),
-        };
+        // the operating system's own resolution first; `realpath -m` style only for paths that do not exist
+        let probe = returned_path.clone().unwrap_or_else(|| base.join(&id));
+        let target_loc = std::fs::canonicalize(&probe).ok().or_else(|| if op == "path_for_id" { real_location(&probe) } else { loc.clone() });
+        if target_loc.is_none() {
+            run.count("positive_without_location");
+        }
         if let Some(l) = target_loc {
             if !inside(&l, &root_real) {
                 let sig = match op {
@@ -975,7 +995,7 @@ fn judge_live(run: &Run, c: &Case, live: &Live) -> CaseResult {
                 };
                 return Err(Fail::new(
                     sig,
-                    format!("{op}({id:?}) with base {} answered positively ({outcome}, path {returned_path:?}) although the real location is {l:?}, outside {root_real:?}", c.base),
+                    format!("{op}({}) with base {} answered positively ({outcome}) although the real location is {l:?}, outside {root_real:?}", short(&id), c.base),
                 ));
             }
         }
@@ -991,7 +1011,7 @@ fn judge_live(run: &Run, c: &Case, live: &Live) -> CaseResult {
         if second != first {
             return Err(Fail::new(
                 "C29:exists-depends-on-outside-files",
-                format!("exists({id:?}) was {first:?}, and {second:?} after outside files were removed/created (base {})", c.base),
+                format!("exists({}) was {first:?}, and {second:?} after outside files were removed/created (base {})", short(&id), c.base),
             ));
         }
     }
